@@ -1,3 +1,4 @@
+import MxModel.Generated.Tables
 /-!
 # DocQuote: how a documentation string is written and how Python reads it back
 
@@ -49,21 +50,14 @@ namespace MxModel.DocQuote
 
 /-! ## Writer -/
 
-/-- `_DOCSTR_ESCAPES.get(c)`: backslash, NUL, and every character at which `str.splitlines`
+/-- `_DOCSTR_ESCAPES` as it stands in `modelx/core/formula.py` NOW (read by the table translator on
+every run, `Generated/Tables.lean`): backslash, NUL, and every character at which `str.splitlines`
 splits a text, except the line feed -/
-def escapeOf (c : Char) : Option (List Char) :=
-  if c = '\\' then some ['\\', '\\']
-  else if c = Char.ofNat 0 then some ['\\', 'x', '0', '0']
-  else if c = '\r' then some ['\\', 'r']
-  else if c = Char.ofNat 0x0b then some ['\\', 'x', '0', 'b']
-  else if c = Char.ofNat 0x0c then some ['\\', 'x', '0', 'c']
-  else if c = Char.ofNat 0x1c then some ['\\', 'x', '1', 'c']
-  else if c = Char.ofNat 0x1d then some ['\\', 'x', '1', 'd']
-  else if c = Char.ofNat 0x1e then some ['\\', 'x', '1', 'e']
-  else if c = Char.ofNat 0x85 then some ['\\', 'x', '8', '5']
-  else if c = Char.ofNat 0x2028 then some ['\\', 'u', '2', '0', '2', '8']
-  else if c = Char.ofNat 0x2029 then some ['\\', 'u', '2', '0', '2', '9']
-  else none
+def escapeTable : List (Char × List Char) :=
+  MxModel.Generated.docstrEscapes.map (fun p => (Char.ofNat p.1, p.2.map Char.ofNat))
+
+/-- `_DOCSTR_ESCAPES.get(c)` -/
+def escapeOf (c : Char) : Option (List Char) := escapeTable.lookup c
 
 /-- the loop of `quote_docstring`; `quotes` = length of the current run of unescaped quotes -/
 def quoteBody : Nat → List Char → List Char
